@@ -456,10 +456,13 @@ impl GrammarBuilder {
         if let Some(ref op) = gsymref.repetition_op {
             let modifiers = &op.rep_modifiers;
             let modifier = if let Some(modifiers) = modifiers {
-                assert!(
-                    modifiers.len() == 1,
-                    "Separator modifier is supported only!"
-                );
+                if modifiers.len() != 1 {
+                    return err!(
+                        "Only a single (separator) repetition modifier is supported.".to_owned(),
+                        Some(self.file.clone()),
+                        modifiers[1].span
+                    );
+                }
                 Some(&modifiers[0])
             } else {
                 None
